@@ -38,6 +38,9 @@ FAM = {
     "mc_must_violate": {t: [("MC_Pool", MC % (3, 1, 2, F, F, F), "MC_Pool-legacy-release", "Release as capacity check then blocking send"),
                             ("MC_Pool", MC % (2, 1, 2, T, F, T), "MC_Pool-second-close-releases", "a second Close releases again")]
                         for t in ("quick", "thorough")},
+    # unbounded in rounds and object identities: IndInv (incl. Exclusive, CacheBounded) is inductive (Apalache)
+    "inductive": {"quick": ("PoolInd", ["CInit32"], "CInit32Legacy", "NotReach"),
+                  "thorough": ("PoolInd", ["CInit32", "CInit41", "CInit20"], "CInit32Legacy", "NotReach")},
     "driver": "pool", "plans": plans,
     "replay_plan": lambda rp, run: plans([], run),
     "trace_module": "PoolTrace",
@@ -60,7 +63,9 @@ FAM = {
     "replay_context": lambda ev, events: {"note": "re-run the same seed"},
     "explanation": "MC_Pool explores every interleaving of N processes x Rounds at Acquire / Close / (Check, Send) / nil / second-Close "
                    "granularity for several (N, K) incl. K = 0 and the sync.Pool bag, with invariants Exclusive, NeverBlocks, CacheBounded "
-                   "and liveness Completion; the legacy check-then-send release and a releasing second Close are refuted.",
+                   "and liveness Completion; the legacy check-then-send release and a releasing second Close are refuted. "
+                   "PoolInd (typed, checked with Apalache): Exclusive / CacheBounded are part of an inductive invariant, i.e. hold for "
+                   "any number of rounds and objects for the listed (N, K); the releasing second Close breaks inductiveness.",
 }
 
 
